@@ -122,7 +122,9 @@ def _apply(cls, f, ref, op, new):
     elif k == "app":
         fa, fr = (lambda: f.append(w(new))), (lambda: ref.append(new))
     elif k == "ext":
-        fa, fr = (lambda: f.extend([w(new), w(new + "b")])), (lambda: ref.extend([new, new + "b"]))
+        # the argument is any iterable, one-shot ones included (a list, a tuple, a generator, an iterator, a map object)
+        form = [list, tuple, lambda v: (x for x in v), iter, lambda v: map(lambda x: x, v)][(len(ref) + len(new)) % 5]
+        fa, fr = (lambda: f.extend(form([w(new), w(new + "b")]))), (lambda: ref.extend([new, new + "b"]))
     elif k == "pop":
         fa, fr = (lambda: U.unwrap(cls, f.pop(*op[1:]))), (lambda: ref.pop(*op[1:]))
     elif k == "rem":
@@ -132,7 +134,7 @@ def _apply(cls, f, ref, op, new):
     elif k == "iadd":
         def fa():
             g = f
-            g += [w(new)]
+            g += [list, iter, lambda v: (x for x in v)][len(ref) % 3]([w(new)])
             if g is not f:
                 raise AssertionError("+= returned another object")
         fr = lambda: ref.extend([new])  # noqa: E731
